@@ -2,7 +2,7 @@
 import json
 import random
 
-from ..comp import align, malign
+from ..comp import align, malign, pairwise_ipa
 from ..lib import coqrun, driver, env, proofs, report
 
 PROP = "C01"
@@ -16,7 +16,13 @@ def streams(tier, seed):
     rand = [align.gen_case(rng, maxlen) for _ in range(nrand)]
     exh = list(align.exhaustive_cases(2 if tier == "quick" else 3))
     mal = [malign.gen_case(rng, maxlen) for _ in range(nrand // 2)]
-    return [("align_exhaustive", align, "align_case", "align_case_code", exh),
+    env.use_repo()
+    ipa = []
+    for _ in range(150 if tier == "quick" else 4000):
+        for c in pairwise_ipa.run_history(pairwise_ipa.gen_history(rng)):
+            ipa.append(c)
+    return [("pairwise_ipa_histories", pairwise_ipa, "mcase", "mcase_code", ipa),
+            ("align_exhaustive", align, "align_case", "align_case_code", exh),
             ("align_random", align, "align_case", "align_case_code", rand),
             ("malign_random", malign, "mcase", "mcase_code", mal)]
 
